@@ -125,6 +125,24 @@ fn subgraph_waker(env: E<'_>) -> Waker {
     Waker::from(env.subgraph.clone())
 }
 
+/// Shapes in which downstream 0 and downstream 1 hang directly under one `ready_both!` combinator
+/// (every call that polls downstream 0 also polls downstream 1): the coupled-legs readiness
+/// pattern is only drawn for these.
+const COUPLED_OK: &[&str] = &[
+    "fanout",
+    "unzip",
+    "demux_var2",
+    "demux_var3",
+    "fanout(fanout(a,b),c)",
+    "fanout(sync_ctx,task_ctx)",
+    "persist>fanout",
+    "flat_map_stream>fanout",
+    "filter_map_async>fanout",
+    "sort>fanout",
+    "flat_map>unzip",
+    "state_push",
+];
+
 // ------------------------------------------------------------------------------------------
 // the shape macro
 
@@ -142,7 +160,8 @@ macro_rules! shape {
     ) => {
         #[allow(unused_variables, unused_mut, clippy::redundant_closure_call)]
         pub fn $fname(sim: &mut Sim) -> Outcome {
-            const INFO: ShapeInfo = ShapeInfo {
+            let info = ShapeInfo {
+                coupled_ok: COUPLED_OK.contains(&$name),
                 name: $name,
                 family: $family,
                 n_outs: $nouts,
@@ -151,7 +170,7 @@ macro_rules! shape {
                 held_ready: concat!("held_across_pending_in_ready/", $tag),
                 held_fin: concat!("held_across_pending_in_finalize/", $tag),
             };
-            let cfg = Cfg::draw(sim, INFO);
+            let cfg = Cfg::draw(sim, info);
             let mut specs: Vec<Vec<$Spec>> = Vec::new();
             for _ in 0..cfg.n_epochs {
                 let n = sim.choose("n_items", 0, cfg.max_items as u64) as usize;
